@@ -255,6 +255,7 @@ impl DiagFamily {
         ] {
             typed.push(p.to_owned());
         }
+        typed.extend(value_first_programs());
         if let Ok(rd) = std::fs::read_dir(format!("{}/examples", crate::infra::REPO_DIR)) {
             let mut paths: Vec<_> = rd.filter_map(|e| e.ok()).map(|e| e.path()).collect();
             paths.sort();
@@ -321,6 +322,29 @@ impl DiagFamily {
     }
 }
 
+// Groups whose first definition is computed and mentions several later function definitions (which the
+// evaluator substitutes ahead of it), with function-valued and integer results: the printed value
+// shows the order in which the functions were substituted.
+pub fn value_first_programs() -> Vec<String> {
+    let firsts = ["h : (int -> bool) = if 1 == 1 then even else odd", "h : (int -> bool) = if odd 3 then even else odd", "h : (int -> bool) = (q : (int -> bool) = odd; if even 2 then q else even)"];
+    let functions = [
+        "even : (int -> bool) = (n : int) => if n == 0 then true else odd (n - 1); odd : (int -> bool) = (n : int) => if n == 0 then false else even (n - 1)",
+        "odd : (int -> bool) = (n : int) => if n == 0 then false else even (n - 1); even : (int -> bool) = (n : int) => if n == 0 then true else odd (n - 1)",
+        "even : (int -> bool) = (n : int) => n == 0; odd : (int -> bool) = (n : int) => if n == 0 then false else even (n - 1)",
+        "even : (int -> bool) = (n : int) => n == 0; third : (int -> bool) = (n : int) => odd n; odd : (int -> bool) = (n : int) => n == 1",
+    ];
+    let bodies = ["h", "even", "odd", "h 3", "(n : int) => h n"];
+    let mut out = vec![];
+    for f in firsts {
+        for g in functions {
+            for b in bodies {
+                out.push(format!("{f}; {g}; {b}"));
+            }
+        }
+    }
+    out
+}
+
 // Repeat-run differential in process: std's RandomState takes its keys from a per-thread pair that is
 // incremented for every new container, so each repetition of the pipeline on the same text gives every
 // hash container in gram different keys (the in-process counterpart of launching the binary again;
@@ -379,6 +403,7 @@ fn multi_diagnostic_programs() -> Vec<String> {
         "f = (p : int) => (q : int) => (r : int) => (s : int) => (a = b + c + p + q + r + s; b = 1 + 1; c = 2 + 2; a); f 1 2 3 4".to_owned(),
         "(x : int) => x + true + (y => y)".to_owned(),
     ];
+    v.extend(value_first_programs().into_iter().step_by(7));
     let fam = Family::new(3);
     let mut i = 0;
     while i < fam.count() {
@@ -470,7 +495,7 @@ impl Prop for C13 {
     fn evidence(&self, tier: Tier) -> EvidenceSpec {
         EvidenceSpec {
             level: "model_checking",
-            rule: "states = executions of the real `parse` under one complete assignment of iteration orders (a leaf of the choice tree), transitions = choice points answered; the explorer replays a prefix of permutation choices through hook H1 and takes the ascending order afterwards, records the arity n! met at each point and enumerates every alternative (stateless DFS, cap 300 / 5000 leaves per program, the number of capped trees is reported). Space: every group of k <= 3 definitions (thorough: also k = 4 at top level with d0 as the body, cap 48 leaves), each a literal, a lambda mentioning any subset of the group, or a non-value expression mentioning any subset, with each group variable as the body, at top level and nested in a called function. All leaves must be equal (verdict, diagnostics, order). For hash containers that no hook owns (none on the current tree), the whole pipeline (tokenize, parse, type check, evaluate) is repeated 5/12 times in process on every program of the multi-diagnostic family (all strings <= 5 over five symbols with lexical errors; 15625 groups of three definitions clashing with binders and each other and mentioning unbound names; 216 triples of ill-typed definitions; the definition-order family; the alias and nested-group families; dependent-type programs whose printed types mention their own binders and outer variables, and the repository's examples): std gives every new container fresh keys, and every repetition must print the same thing (repeat-run differential, not exhaustive). Separately the real binary (hooks off) is launched 6/24 times on the examples and on multi-diagnostic programs for `check` and `run`; any byte difference between launches is a violation (repeat-run differential, not exhaustive). evaluations = programs + files; non-trivial = programs whose choice tree has more than one leaf".to_owned(),
+            rule: "states = executions of the real `parse` under one complete assignment of iteration orders (a leaf of the choice tree), transitions = choice points answered; the explorer replays a prefix of permutation choices through hook H1 and takes the ascending order afterwards, records the arity n! met at each point and enumerates every alternative (stateless DFS, cap 300 / 5000 leaves per program, the number of capped trees is reported). Space: every group of k <= 3 definitions (thorough: also k = 4 at top level with d0 as the body, cap 48 leaves), each a literal, a lambda mentioning any subset of the group, or a non-value expression mentioning any subset, with each group variable as the body, at top level and nested in a called function. All leaves must be equal (verdict, diagnostics, order). For hash containers that no hook owns (none on the current tree), the whole pipeline (tokenize, parse, type check, evaluate) is repeated 5/12 times in process on every program of the multi-diagnostic family (all strings <= 5 over five symbols with lexical errors; 15625 groups of three definitions clashing with binders and each other and mentioning unbound names; 216 triples of ill-typed definitions; the definition-order family; the alias and nested-group families; dependent-type programs whose printed types mention their own binders and outer variables, 60 programs whose first definition is computed and chooses between later, mutually recursive functions (which the evaluator substitutes ahead of it), and the repository's examples): std gives every new container fresh keys, and every repetition must print the same thing (repeat-run differential, not exhaustive). Separately the real binary (hooks off) is launched 6/24 times on the examples and on multi-diagnostic programs for `check` and `run`; any byte difference between launches is a violation (repeat-run differential, not exhaustive). evaluations = programs + files; non-trivial = programs whose choice tree has more than one leaf".to_owned(),
             assumptions: vec![
                 "hook H1 owns the only iteration over a hash container that reaches an output (grep of non-test code); another site is visible only to the repeat-run differentials, which sample hash keys instead of enumerating orders".to_owned(),
                 "ordered containers pass through the hook unchanged, so a repaired tree has no choice points".to_owned(),
